@@ -188,8 +188,18 @@ package contractcourt
 //@   site call ResolveContract: assert retn(Resolve, 1) == nil && retn(Resolve, 0) == nil && ret(IsResolved, 1)
 //@
 //@ func (c *ChannelArbitrator) stateStep
-//@   props C13
+//@   props C13 C12
 //@   loop * havoc
+//@   // upstream fail-backs: dust before broadcast; after confirmation the breached set (remote commitments, outgoing only)
+//@   // or, when not breached, final-fail of incoming dust plus the dangling set
+//@   site call Map nth 0: assert arg(0) == chainActions[HtlcFailDustAction]
+//@   site call Map nth 1: assert arg(0) == htlcActions[HtlcFailDanglingAction]
+//@   site call abandonForwards nth 0: assert arg(htlcs) == ret(NewSet, 0) && len(chainActions[HtlcFailDustAction]) > 0
+//@   site call abandonForwards nth 1: assert arg(htlcs) == cancelBreachedHTLCs && arg(htlcs) == ret(NewSet, 1)
+//@   site call NewSet nth 1: assert contractResolutions.BreachResolution != nil
+//@   site call abandonForwards nth 2: assert contractResolutions.BreachResolution == nil && arg(htlcs) == ret(NewSet, 2) && ret(failIncomingDust) == nil
+//@   site call failIncomingDust: assert contractResolutions.BreachResolution == nil && arg(incomingDustHTLCs) == htlcActions[HtlcIncomingDustFinalAction]
+//@   site call Add: assert htlcSetKey.IsRemote && !htlc.Incoming && arg(1) == htlc.HtlcIndex && arg(0) == cancelBreachedHTLCs
 //@   site call prepContractResolutions: assert arg(2) == triggerHeight && arg(3) == retn(constructChainActions, 0, 1) &&
 //@        retn(constructChainActions, 1, 1) == nil
 //@   site call constructChainActions nth 1: assert arg(1) == confCommitSet && arg(2) == triggerHeight && arg(3) == trigger
@@ -235,3 +245,21 @@ package contractcourt
 //@   props C04
 //@   ensures result == ite(bo.witnessType == input.CommitmentToRemoteConfirmed || bo.witnessType == input.TaprootRemoteCommitSpend ||
 //@           bo.witnessType == input.TaprootRemoteCommitSpendFinal, 1, 0)
+//@
+//@ func (c *ChannelArbitrator) abandonForwards
+//@   props C12
+//@   loop * havoc
+//@   site store ResolutionMsg.SourceChan: assert value == c.cfg.ShortChanID
+//@   site store ResolutionMsg.HtlcIndex: assert value == idx
+//@   site store ResolutionMsg.Failure: assert value != nil && typeis(value, *lnwire.FailPermanentChannelFailure)
+//@   loop 0 step len(msgsToSend) == prev(len(msgsToSend)) + 1
+//@   site call DeliverResolutionMsg: assert arg(0) == msgsToSend && len(msgsToSend) > 0
+//@   site return nil: assert len(msgsToSend) == 0 || (called(DeliverResolutionMsg) && ret(DeliverResolutionMsg) == nil)
+//@
+//@ func (c *ChannelArbitrator) failIncomingDust
+//@   props C12
+//@   loop * havoc
+//@   site call PutFinalHtlcOutcome: assert htlc.Incoming && htlc.OutputIndex < 0 && arg(0) == c.cfg.ShortChanID && arg(1) == htlc.HtlcIndex && !arg(2)
+//@   site call NotifyFinalHtlcEvent: assert ret(PutFinalHtlcOutcome) == nil && arg(1).HtlcID == htlc.HtlcIndex && arg(1).ChanID == c.cfg.ShortChanID &&
+//@        !arg(2).Settled && !arg(2).Offchain
+//@   loop 0 step called(NotifyFinalHtlcEvent)
